@@ -19,6 +19,7 @@ class FakeServer:
         self.commands = []
         self.listing_by_arg = {}
         self.replies_by_line = {}     # whole command line -> raw reply (takes precedence over the per-verb table)
+        self.completion = b"226 done\r\n"   # what follows a transfer (None: nothing at all)
         self.sent = b""               # everything written on control connections
 
     async def start(self):
@@ -81,7 +82,8 @@ class FakeServer:
                 else:
                     await r.read()
                 w.close()
-                writer.write(b"226 done\r\n")
+                if self.completion is not None:
+                    writer.write(self.completion)
                 continue
             if verb in self.replies:
                 writer.write(self.replies[verb])
